@@ -13,7 +13,7 @@ TITLE = "Scale mean, median, standard deviation and error from category numeric 
 TEMPLATES = ["cat|cat", "cat|cat", "cat|cat_date", "cat_date|cat", "mr|cat", "cat|mr",
              "cai|cac", "cac|cai", "cat", "cat", "cat_date", "cat|cat|cat", "mr|cat|cat",
              "cat|cai|cac", "logical|cat", "cat|binned", "cat", "cat_date"]
-MODES = ["random", "random", "median_trap", "no_values", "sparse"]
+MODES = ["random", "random", "median_trap", "no_values", "sparse", "offset", "one_value"]
 RULE = (
     "W1 synthetic surveys over %d templates x {unweighted, integer weights incl. 0, "
     "fractional weights (mean/stddev/stderr only)} x numeric-value assignments {partial, "
@@ -58,12 +58,34 @@ def make_case(unit):
     j = i // len(TEMPLATES)
     wmode = WEIGHTS[j % len(WEIGHTS)]
     mode = MODES[gen.stratum(ID, i, 1, len(MODES))]
+    if mode == "offset" and wmode in ("tiny", "scales", "float"):
+        wmode = "frac"  # (rounding noise of 1e8-sized values over sqrt of 1e-12-sized margins)
     N = g.pick([6, 8, 10, 12, 16, 20, 30, 40])
     nparts = len(template.split("|"))
     sizes = [g.r.randint(2, 5) for _ in range(nparts)]
     numeric = "none" if mode == "no_values" else g.pick(["some", "all", "some"])
     facets = cases.random_facets(g, template, N, sizes=sizes, p_zero=0.3 if mode == "sparse"
                                  else 0.15, numeric=numeric)
+    if mode == "offset":
+        # numeric values far from zero relative to their spread (year-like or id-like codes):
+        # the deviation must be formed before squaring
+        off = g.pick([1e6, 1e8])
+        for role, var in facets:
+            if role in ("cat", "ca_cats"):
+                for c in var.cats:
+                    if c.get("numeric_value") is not None:
+                        c["numeric_value"] = c["numeric_value"] + off
+    if mode == "one_value":
+        # every valued respondent of the scale variable sits on one category: the spread is
+        # exactly zero, whatever the weights
+        lf_ = cases.library_order_facets(facets)
+        role_, var_ = lf_[-1]
+        if role_ == "cat":
+            valued = [k for k, c in enumerate(var_.cats)
+                      if not c.get("missing") and c.get("numeric_value") is not None]
+            if valued:
+                k0 = g.pick(valued)
+                var_.ans = np.array([k0 if a in valued else a for a in var_.ans])
     if mode == "median_trap":
         _median_trap(g, facets)
     if mode == "sparse":
@@ -243,8 +265,14 @@ def _slice(res, L, t, part, integer, distinct):
             if not res.check(mon, ga.shape == e.shape, "shape/%s" % attrs[k],
                              {"got": list(ga.shape), "exp": list(e.shape)}):
                 continue
+            # a root turns the last-bit error of a mean of values around 1e8 (1e-8) into a
+            # spread of that size: absolute tolerance scaled with the magnitude of the values
+            atol = 1e-9
+            if k in ("mean_stddev", "mean_stderr"):
+                big = max([abs(v) for v in _values(o, vdim) if not math.isnan(v)] + [1.0])
+                atol = max(1e-7, 4e-15 * big)  # roots of rounding residues (see C11)
             ok, det = cmp.same(np.where(judged, ga, 0), np.where(judged, e, 0), rtol=1e-9,
-                               atol=1e-9)
+                               atol=atol)
             cfg = ""
             if not ok and k == "median":
                 cfg = "/exact_half" if "median_exact_half" in res.classes else ""
